@@ -1,42 +1,31 @@
-"""Per-property configuration of tools/check.py.
+"""Per-property configuration of tools/check.py: one file tools/propdefs/<id>.py per property, each defining PROP.
 
-level    evidence level written to evidence/<id>.json
-rule     how cases are enumerated and what makes one non-trivial (goes into the evidence file)
-passes   one entry per (build variant, harness) execution; results of all passes are merged
-bounds   human-readable statement of the bound explored per tier
+PROP keys:
+  harness     file under harness/
+  level       evidence level: exploration | fault_enumeration | model_checking
+  engine      bex | hist | schedex | forkbox
+  technique   a few words naming the deciding method (MANIFEST)
+  claim       MANIFEST level_claimed.text;  note  MANIFEST level_note
+  rule        how cases are enumerated and what makes one non-trivial (evidence file)
+  bounds      dict(quick=..., thorough=...) human-readable bound per tier
+  deadline    dict(quick=seconds, thorough=seconds) soft deadline handed to the harness (cap, not failure)
+  passes      optional list of dict(name, variant=rel|asan, cache_size, flags, args, shards, tiers) - one harness run per entry
+  assumptions list of strings
+  driver      optional python callable replacing the generic build/run/merge (C05, C09, C10)
 """
+import glob
+import importlib.util
+import os
+import sys
 
-COMMON_ASSUME = [
-    "default configuration only: real_t=double, exceptions on, x86-64, libstdc++, NDEBUG (as shipped)",
-    "library rebuilt from the working tree of $VERIF_REPO (default /repo) by tools/vbuild.py, no cmake",
-    "nothing is sampled: VERIF_SEED is recorded but does not influence the enumerated space",
-]
+_here = os.path.dirname(os.path.abspath(__file__))
+sys.path.insert(0, _here)
+from props_common import COMMON_ASSUME  # noqa: E402,F401
 
 PROPS = {}
-
-PROPS["C15"] = dict(
-    harness="C15_primes.cpp",
-    level="exploration",
-    engine="bex",
-    technique="bounded-exhaustive enumeration of integer arguments on the real functions, each block in a forked child with watchdog; sieve / Miller-Rabin oracle; hook step counter",
-    claim="every argument in the stated ranges (all n <= 2^22 thorough, boundary windows at 2^16, 2^24, 2^31, 65521^2, 2^32, a 32-bit lattice, "
-          "semiprimes around 2^16) is executed on the implementation and compared with an exact oracle, including a deterministic cost oracle; "
-          "no sampling. Exhaustive within the bound, silent outside it.",
-    note="trusts the harness's sieve/Miller-Rabin (cross-checked against each other on the overlap) and the DSPLIB_VERIF step-counter hook placement",
-    rule="every argument of a stated integer range is passed to the real function in a forked child with a watchdog and "
-         "compared with a sieve / deterministic Miller-Rabin / 64-bit trial division; the cost oracle is the trial-division "
-         "counter of the DSPLIB_VERIF hook (<= 32*sqrt(n)+4096 per primality test). A case is one argument; non-trivial = "
-         "argument that is prime or has >= 2 prime factors (isprime/factor), has >= 2 primes below it (primes), is "
-         "composite (nextprime), or m > 2 (pow2 helpers)",
-    bounds=dict(
-        quick="isprime/factor: every n in [0,2^18], every n within 1024 of 2^16, 2^24, 2^31, 65521^2, 2^32-1, lattice 4099*64*k+17 "
-              "over 32 bits, all p*q<2^32 of the 40 primes nearest 2^16; primes(n) n<=1024 + 4 large; nextprime every n<=8192 + "
-              "windows +-48; nextpow2/ispow2 every m<=2^18 and within 256 of every 2^k and INT_MAX",
-        thorough="isprime/factor: every n in [0,2^22], windows +-4096, lattice 4099*k+17 over the whole 32-bit range (1.05M points); "
-                 "primes(n) n<=4096 + 4 large; nextprime every n<=65536 + windows +-256; pow2 helpers every m<=2^22 + windows"),
-    deadline=dict(quick=150, thorough=1500),
-    assumptions=COMMON_ASSUME + [
-        "termination: a call that does not return within 8 s (normal: < 2 ms) is reported as a hang",
-        "complexity of primes(n) is not bounded by sqrt(n) (its output alone is larger); only its value is checked",
-    ],
-)
+for _f in sorted(glob.glob(os.path.join(_here, "propdefs", "C*.py"))):
+    _n = os.path.splitext(os.path.basename(_f))[0]
+    _spec = importlib.util.spec_from_file_location("propdef_" + _n, _f)
+    _m = importlib.util.module_from_spec(_spec)
+    _spec.loader.exec_module(_m)
+    PROPS[_n] = _m.PROP
